@@ -26,7 +26,7 @@ ASSUMPTIONS = ["the report format of GapDegree/PosTags/SentenceCount.done() is p
 
 
 def budget(tier):
-    return 2500 if tier == "quick" else 100000
+    return 2500 if tier == "quick" else 200000
 
 
 def generate(seed, tier):
